@@ -10,7 +10,10 @@ VERIF = os.path.dirname(os.path.dirname(os.path.abspath(__file__)))
 CLAIMS = {
     "C38": ("AST rule over every instantiation of the diff_utils templates reachable (call graph) from compute_diff",
             "inside the Myers implementation no == / != is applied to a sequence element; all element comparisons "
-            "are calls of the caller's equality functor; the raw-== helpers stay unreachable from compute_diff",
+            "are calls of the caller's equality functor; the raw-== helpers stay unreachable from compute_diff; "
+            "R-TRACELCS: every branch of the dispatch on d copies the middle snake's points into the lcs (the d == 1 "
+            "branch does not: recorded, replayed finding); R-WINDOW: a window narrowed from both ends by two counters "
+            "cannot invert",
             "correctness and minimality of the edit script",
             "§3 R-EQFUNCTOR; §4 C38"),
     "C40": ("def-use analysis of the HASH_TYPE_ID_STYLE arm of write_context::get_id_for_type",
@@ -21,9 +24,10 @@ CLAIMS = {
             "§3 R-HASHID; §4 C40"),
     "C42": ("compile-fail witnesses (type-level encoding: private constructor + friend) and AST shape obligations on "
             "interned_string / interned_string_pool",
-            "only interned_string_pool can mint a representative, create_string reuses the existing one "
-            "(lookup-then-insert on one content-keyed map, empty string = null representative), identity comparison "
-            "and hashing use the representative's address",
+            "only interned_string_pool can mint a representative; create_string consults one content-keyed container, "
+            "never hands out a null representative for a non-empty content and never overwrites an existing one (path "
+            "exploration with null / empty / fresh-key facts), the empty string keeps the null representative; identity "
+            "comparison and hashing use the representative's address",
             "orderings of string multisets are std::string behaviour; strings of different pools are out of scope",
             "§3 R-INTERN; §4 C42"),
     "C34": ("non-null dataflow over libelf accessor results, buffer-pointer derivation from Elf_Data::d_buf with a "
@@ -59,28 +63,35 @@ CLAIMS = {
     "C12": ("non-interference by whole-program call-graph reachability (CHA) with a positive control",
             "no function reachable from the verdict entry points (compute_diff, has_*changes, filtering, "
             "suppression, stats) reads a presentation flag; corpus path / architecture are read there only by "
-            "suppression matching, a diagnostic string and the architecture equality itself",
+            "suppression matching - and there its value flows only into matches_binary_name (value-flow rule through "
+            "locals and helper parameters) -, a diagnostic string and the architecture equality itself",
             "CHA over-approximates virtual dispatch; unresolved indirect calls in the closure are listed in the evidence",
             "§3 R-PRESENT; §4 C12"),
     "C27": ("AST rules on the pattern generator: insertion-chain operands, literal value of the metacharacter set, "
-            "control dependence of the backslash insertion, def-use of the generated pattern",
+            "control dependence of the backslash insertion (two recognised copy idioms, analysis-broken otherwise), "
+            "def-use of the generated pattern; sibling agreement of all option branches of the tools' "
+            "parse_command_line (operand arity); correlated-branch must-pass-through in abidiff",
             "every whitelisted name reaches the generated pattern only through regex::escape, the escaped set covers "
             "every POSIX ERE metacharacter, the pattern is anchored, and the whitelist suppressions take their regex "
-            "only from generate_from_strings",
+            "only from generate_from_strings; R-OPTARITY: every option that reads an operand consumes it (abidiff "
+            "--keep-fn/--keep-var did not: repaired); R-KEEPDROP: keep/drop patterns stored into a corpus are applied "
+            "to its exported sets on every path (abidiff never did: repaired)",
             "which declarations the compiled pattern then keeps or drops (runtime); user --keep/--drop patterns are "
             "compiled unmodified by design",
             "§3 R-RXESC; §4 C27"),
     "C01": ("sibling-agreement rule: multisets of configuration events (context creation, options, suppressions, "
             "loader calls, post-load adjustments) per operand, attributed by operand name or enclosing region (AST)",
             "in abidiff, abipkgdiff, abicompat and kmidiff the two operands of a comparison are read under the same "
-            "configuration (same-configuration clause of self-comparison)",
+            "configuration (same-configuration clause of self-comparison); R-QNREFRESH: qualified names cached below a "
+            "renamed decl are refreshed by full traversal only (a binary and its ABIXML get the same names)",
             "that identical loads give identical IR and that identical IR compares clean (reflexivity of equals / "
             "canonicalisation on cyclic graphs) is runtime",
             "§3 R-TWINLOAD; §4 C01"),
     "C19": ("sibling-agreement (contradiction) rule over ordered symbol-lookup event sequences of the four regions of "
             "ensure_lookup_tables_populated",
             "function symbols and variable symbols get the same re-lookup treatment (still-present => not removed; "
-            "default-version re-export rule) in the declared and in the unreferenced-symbol regions",
+            "default-version re-export rule) in the declared and in the unreferenced-symbol regions; R-VERLOOKUP: the "
+            "lookup behind both answers only with the requested version",
             "the set difference over the runtime symbol sets",
             "§3 R-SIBSYM; §4 C19"),
     "C28": ("who-gates rule: every is_linux_kernel() value that selects ksymtab filtering is conjoined with, or "
